@@ -58,6 +58,20 @@ def queue_namers(P):
     return {k: {roles.get(g, g) for g in v} for k, v in out.items()}
 
 
+def queue_adders(P):
+    """function name -> index of the GQueue* parameter it appends to (a generic `add(queue, message, ...)` helper whose caller names the queue)"""
+    out = {}
+    for f in P.repo_functions():
+        for i in f.calls():
+            if i.callee in ("g_queue_push_tail", "g_queue_push_head") and i.args:
+                src = rules.load_source(f, i.args[0])
+                if src and src[0] == "alloca":
+                    k = f.param_index_of_alloca(f.insts[src[1]])
+                    if k is not None:
+                        out[f.name] = k
+    return out
+
+
 def queue_roles(P):
     """queue object -> canonical role name, by the public reader that pops from it (public API names are the stable anchors):
     bidib_read_message -> 'uplink_queue', bidib_read_error_message -> 'uplink_error_queue', bidib_read_intern_message -> 'uplink_intern_queue'"""
@@ -146,9 +160,13 @@ def prepare(w):
                 return True
         return False
 
+    adders = queue_adders(P)
+
     def pred(g):
         if not g.internal or g.relfile != f.relfile or g.name in P.addr_taken():
             return False
+        if g.name in adders:
+            return False        # the generic `add(queue, message)` primitive stays a call: it is the hand-over event itself
         cs = P.callers().get(g.name, [])
         return bool(cs) and all(cf.name == f.name for cf, ci in cs) and works(g)
     done = inline.inline_helpers(P, f.name, pred)
@@ -164,6 +182,8 @@ class Dispatch:
         P = self.P = w.P
         self.fn, self.sw, self.tparam, self.mparam = find_dispatcher(P)
         self.namers = queue_namers(P)
+        self.adders = queue_adders(P)
+        self.qroles = queue_roles(P)
         self.cons = consuming_params(P)
         f = self.fn
         # instructions whose operand derives from the message parameter
@@ -183,6 +203,16 @@ class Dispatch:
         self.switches = type_switches(f).get(self.tparam, [self.sw])
         self.case_values = sorted({c[0] & 0xff for sw_ in self.switches for c in sw_["cases"]})
         self._summ = {}
+
+    def _queue_arg(self, call):
+        k = self.adders.get(call.callee)
+        if k is None or k >= len(call.args):
+            return None
+        a = rules.resolve_local(self.fn, rules.strip_casts(self.fn, call.args[k]))
+        src = rules.load_source(self.fn, a)
+        if src and src[0] == "global":
+            return self.qroles.get(src[1], src[1])
+        return None
 
     def msg_arg_positions(self, call):
         f = self.fn
@@ -211,6 +241,9 @@ class Dispatch:
                 pos = self.msg_arg_positions(inst)
                 if inst.callee == "free" and pos:
                     ev2 = ("free", inst.line)
+                elif inst.callee in self.adders and pos and self._queue_arg(inst) is not None:
+                    # the generic adder called directly with the queue object (the per-queue wrapper inlined into the case)
+                    ev2 = ("queue", self._queue_arg(inst), inst.line)
                 elif inst.callee in self.namers and pos:
                     ev2 = ("queue", tuple(sorted(self.namers[inst.callee]))[0], inst.line)
                 elif pos and any((inst.callee, j) in self.cons for j in pos):
